@@ -25,6 +25,17 @@ func profileByName(name string) Profile {
 		p.WideInts = true
 	case "mixed":
 		p.WKV, p.WList, p.WSet, p.WZSet = 3, 2, 2, 2
+	case "kvdeep":
+		// enough keys per bucket for a multi-level B+ tree with splits of inner leaves
+		p.WKV = 1
+		p.Buckets = []string{"b1"}
+		p.Keys = nil
+		for i := 0; i < 48; i++ {
+			p.Keys = append(p.Keys, fmt.Sprintf("k%02d", (i*29)%48))
+		}
+		p.Txs, p.OpsMin, p.OpsMax = 30, 2, 6
+		p.Segs = []int{300, 400, 100000}
+		p.Oversize, p.Abort, p.ReadOnly, p.DoneCalls = 0, 5, 15, 0
 	case "scan":
 		// many tombstones / expired keys inside scanned ranges, dense key space
 		p.WKV = 1
@@ -229,7 +240,7 @@ func suiteFault(seed uint64, n int, work string) {
 		b.run("commit")
 		b.run("rollback")
 		cur = a
-		if kind == "write" && part == 100000 {
+		if kind == "writefull" {
 			kind = "sync" // a completed write whose error is reported afterwards: outcome in doubt, like a sync error
 		}
 		if kind == "sync" {
